@@ -98,6 +98,9 @@ func c19GenCase(r *Rand, tier string) c19Input {
 	var in c19Input
 	identity := r.Chance(1, 2)
 	broken := r.Chance(1, 8)
+	if broken {
+		identity = true // the unreadable entity is added after a real bug exists, see "break"
+	}
 	// the first command always runs to completion: it builds the cache, so that no later kill lands in the
 	// middle of the initial build (which leaves a half-created search index behind: not a matter of the lock)
 	if identity {
@@ -106,7 +109,7 @@ func c19GenCase(r *Rand, tier string) c19Input {
 		in.Steps = append(in.Steps, c19Step{Op: "cmd", Kind: "ls"})
 	}
 	if broken {
-		in.Steps = append(in.Steps, c19Step{Op: "break"})
+		in.Steps = append(in.Steps, c19Step{Op: "cmd", Kind: "new"}, c19Step{Op: "break"})
 	}
 	holdKind := func() string {
 		if identity && r.Chance(1, 2) {
@@ -193,7 +196,7 @@ func (c19Driver) Gen(r *Rand, tier string) []json.RawMessage {
 		{Steps: []c19Step{{Op: "cmd", Kind: "ls"}, {Op: "hold", Kind: "webui"}, {Op: "cmd", Kind: "ls"}, {Op: "hold", Kind: "webui"}, {Op: "end", How: "kill"}, {Op: "cmd", Kind: "ls"}}},
 		{Steps: []c19Step{{Op: "usernew"}, {Op: "hold", Kind: "edit"}, {Op: "cmd", Kind: "new"}, {Op: "end", How: "term"}, {Op: "cmd", Kind: "new"}}},
 		{Steps: []c19Step{{Op: "cmd", Kind: "ls"}, {Op: "cmd", Kind: "webui-busy"}, {Op: "cmd", Kind: "ls"}}},
-		{Steps: []c19Step{{Op: "cmd", Kind: "ls"}, {Op: "break"}, {Op: "cmd", Kind: "ls"}, {Op: "cmd", Kind: "ls"}}},
+		{Steps: []c19Step{{Op: "usernew"}, {Op: "cmd", Kind: "new"}, {Op: "break"}, {Op: "cmd", Kind: "ls"}, {Op: "cmd", Kind: "webui-busy"}, {Op: "cmd", Kind: "new"}, {Op: "cmd", Kind: "ls"}}},
 		{Steps: []c19Step{{Op: "cmd", Kind: "ls"}, {Op: "hold", Kind: "webui"}, {Op: "burst", N: 3}, {Op: "end", How: "int"}, {Op: "burst", N: 3}}},
 		{Steps: []c19Step{{Op: "cmd", Kind: "ls"}, {Op: "plant"}, {Op: "cmd", Kind: "ls"}, {Op: "cmd", Kind: "ls"}}},
 	}
@@ -220,6 +223,7 @@ type c19Proc struct {
 	mark    string
 	gofile  string
 	done    chan struct{}
+	sig     bool // the harness has sent this process a signal
 }
 
 type c19Env struct {
@@ -229,7 +233,8 @@ type c19Env struct {
 	ready                []*c19Proc  // long-lived processes observed serving and not yet ended
 	identity, broken     bool
 	nextPort, nextID     int
-	pidReuse             string // set when a pid of a reaped process was seen alive again (assumption violated)
+	slowest              time.Duration // longest start-up (spawn to serving / exit) seen so far in this case
+	pidReuse             string        // set when a pid of a reaped process was seen alive again (assumption violated)
 }
 
 func (e *c19Env) procByID(id int) *c19Proc {
@@ -344,6 +349,7 @@ func (p *c19Proc) waitExit(d time.Duration) bool {
 // with pid_max = 32768 and this many short-lived processes, pids are recycled within minutes.
 func (p *c19Proc) destroy() {
 	if !p.exited() {
+		p.sig = true
 		_ = p.cmd.Process.Kill() // os.Process refuses to signal after Wait has returned
 	}
 	<-p.done
@@ -379,6 +385,9 @@ func (e *c19Env) msgClass(p *c19Proc) string {
 	}
 	if strings.Contains(s, "strconv.Atoi") || strings.Contains(s, "the lock file should be") {
 		return "MCorrupt"
+	}
+	if strings.Contains(s, "remove ") && strings.Contains(s, "git-bug/lock: no such file") {
+		return "MRemove"
 	}
 	if p.exitClass() == "XOk" {
 		return "MNone"
@@ -420,7 +429,13 @@ func listening(port int) bool {
 
 // waits until the long-lived process serves (true) or has exited (false)
 func (e *c19Env) waitReady(p *c19Proc) bool {
-	deadline := time.Now().Add(30 * time.Second)
+	t0 := time.Now()
+	defer func() {
+		if d := time.Since(t0); d > e.slowest {
+			e.slowest = d
+		}
+	}()
+	deadline := time.Now().Add(25 * time.Second)
 	for time.Now().Before(deadline) {
 		if p.exited() {
 			return false
@@ -628,7 +643,12 @@ func (c19Driver) Run(raw json.RawMessage) (res Case) {
 	for _, s := range in.Steps {
 		switch s.Op {
 		case "break":
-			// a bug ref whose commit is not an operation pack: every cache build fails after the lock was taken
+			// A bug ref whose commit is not an operation pack: every cache build fails after the lock was taken.
+			// Only once a real bug exists, i.e. the bug clocks are on disk: without them opening the repository
+			// itself (clock rebuild in LoadRepo) reads the entities and fails before any cache is opened.
+			if _, err := os.Stat(filepath.Join(e.repo, ".git", "git-bug", "clocks", "bugs-create")); err != nil {
+				continue
+			}
 			g, err := repository.OpenGoGitRepo(e.repo, "git-bug", nil)
 			if err != nil {
 				panic(err)
@@ -664,10 +684,14 @@ func (c19Driver) Run(raw json.RawMessage) (res Case) {
 			}
 			situation()
 			args, fam, path, busy := e.shortCmd(kind)
+			t0 := time.Now()
 			p := e.spawn(fam, kind, false, args, nil)
-			if !p.waitExit(60 * time.Second) {
+			if !p.waitExit(20 * time.Second) {
 				p.destroy()
-				tag("hang")
+				tag("hang:cmd-" + kind)
+			}
+			if d := time.Since(t0); d > e.slowest {
+				e.slowest = d
 			}
 			if busy != nil {
 				busy.Close()
@@ -733,9 +757,11 @@ func (c19Driver) Run(raw json.RawMessage) (res Case) {
 			switch how {
 			case "int":
 				h = "HInt"
+				p.sig = true
 				_ = p.cmd.Process.Signal(syscall.SIGINT)
 			case "term":
 				h = "HTerm"
+				p.sig = true
 				_ = p.cmd.Process.Signal(syscall.SIGTERM)
 			case "finok":
 				h = "HFinOk"
@@ -745,10 +771,11 @@ func (c19Driver) Run(raw json.RawMessage) (res Case) {
 				_ = os.WriteFile(p.gofile, []byte("fail\n"), 0o644)
 			default:
 				h = "HKill"
+				p.sig = true
 				_ = p.cmd.Process.Kill()
 			}
 			if !p.waitExit(60 * time.Second) {
-				tag("hang")
+				tag("hang:end-" + how + "-" + p.kind)
 			}
 			p.destroy()
 			e.dropReady(p)
@@ -814,18 +841,70 @@ func (c19Driver) Run(raw json.RawMessage) (res Case) {
 			for i := 0; i < n; i++ {
 				ps = append(ps, e.startLong("webui"))
 			}
+			// Wait until every member serves or has exited. A member that does neither while another one serves has
+			// passed the lock too and sits behind the other holder (the search index is guarded by a file lock of its
+			// own): it is given a grace period far above any start-up time seen in this case, reported as hung, killed.
+			state := make([]int, n) // 0 undecided, 1 ready, 2 exited, 3 hung
+			start := time.Now()
+			lastChange := start
+			grace := 4 * time.Second
+			if g := 20 * e.slowest; g > grace {
+				grace = g
+			}
+			for {
+				undecided, anyReady := 0, false
+				for i, p := range ps {
+					if state[i] == 0 {
+						if p.exited() {
+							state[i] = 2
+							lastChange = time.Now()
+						} else if listening(p.port) && !p.exited() {
+							state[i] = 1
+							lastChange = time.Now()
+						}
+					}
+					if state[i] == 0 {
+						undecided++
+					}
+					if state[i] == 1 {
+						anyReady = true
+					}
+				}
+				if undecided == 0 {
+					break
+				}
+				// (with nobody serving, two members blocked on each other's index lock are hung as well)
+				if ((anyReady || undecided >= 2) && time.Since(lastChange) > grace) || time.Since(start) > 90*time.Second {
+					for i := range ps {
+						if state[i] == 0 {
+							state[i] = 3
+						}
+					}
+					break
+				}
+				time.Sleep(4 * time.Millisecond)
+			}
 			var ms []string
 			nready := 0
-			for _, p := range ps {
-				rdy := e.waitReady(p)
+			for i, p := range ps {
+				rdy := state[i] == 1
 				m := "MNone"
-				if rdy {
+				switch state[i] {
+				case 1:
 					nready++
 					e.ready = append(e.ready, p)
-				} else {
+				case 3:
+					nready++
+					m = "MHung"
+					p.destroy()
+					tag("burst-member-hung")
+				default:
 					m = e.msgClass(p)
 					if m == "MCorrupt" {
 						tag("torn-lock")
+					}
+					if m == "MRemove" {
+						tag("burst-remove-race")
 					}
 					if id, ok := c19LockedID(m); ok {
 						e.checkReuse(id, true)
@@ -859,6 +938,13 @@ func (c19Driver) Run(raw json.RawMessage) (res Case) {
 	}
 	if e.pidReuse != "" {
 		return Case{Skip: "pid reuse, outside the model's assumption: " + e.pidReuse}
+	}
+	// a Go program does not die from a signal by itself (panics and fatal errors exit with status 2): a process found
+	// killed by a signal this harness never sent was killed by somebody else on the machine
+	for _, p := range e.procs {
+		if p.exited() && !p.sig && p.exitClass() == "XSig" {
+			return Case{Skip: fmt.Sprintf("process %d (pid %d) was killed by a signal the harness did not send", p.id, p.pid)}
+		}
 	}
 	if sawLive {
 		tag("opens-against-live-holder")
